@@ -15,7 +15,7 @@ QUICK = [
     ("chk_reducer_step", 120), ("chk_reducer_apex_stop", 60), ("chk_reducer_public_sequence", 150),
     ("chk_combine_leaf_and_live_counts", 40), ("chk_combine_operations", 60), ("chk_invariant_preserved", 90),
     ("chk_walk_serial_step", 60), ("chk_visit_leaves_serial_step", 40),
-    ("chk_closed_form_recurrence", 60), ("chk_unfiltered_counts", 150),
+    ("chk_closed_form_recurrence", 60), ("chk_unfiltered_counts", 150), ("chk_history_k0_c0v1", 200), ("chk_history_k0_c1v0", 200), ("chk_history_k0_c1v1", 200), ("chk_history_k1_c0v1", 200), ("chk_history_k1_c1v0", 200), ("chk_history_k1_c1v1", 200), ("chk_history_k2_c0v1", 200), ("chk_history_k2_c1v0", 200), ("chk_history_k2_c1v1", 200),
     ("chk_e2e_depth1", 120), ("chk_e2e_unfiltered_generic", 300), ("chk_e2e_unfiltered_toast", 300),
 ]
 THOROUGH = QUICK + [("chk_subpyramid_toast_userfilter_ancestors_wide", 900), ("chk_subpyramid_toast_userfilter_wide", 900), ("chk_e2e_depth2", 900), ("chk_e2e_depth2_apex1", 900), ("chk_e2e_depth2_apex2_q0", 900), ("chk_e2e_depth2_apex2_q1", 900), ("chk_e2e_depth2_apex2_q2", 900), ("chk_e2e_depth2_apex2_q3", 900), ("chk_e2e_depth2_pair02", 1500), ("chk_e2e_depth2_pair3", 1700)]
@@ -33,7 +33,7 @@ def declare(run):
               one_level_generators="n <= 30, depth <= 31, symbolic filter verdict / bottom_only / orientation",
               reducer_step="k <= 3 levels of arbitrary (symbolic) slot contents, Q = parent or first-descendant (<= 2 levels down) of a later sibling",
               combine_steps="four child results symbolic (unbounded non-negative ints / bools)",
-              subpyramid="apex level <= 2, depth <= 3", closed_forms="d <= 30 (recurrence), depth <= 3 executed",
+              subpyramid="apex level <= 2, depth <= 3; one-object histories: [count] [walk+visit] subpyramid (count walk visit) x 2", closed_forms="d <= 30 (recurrence), depth <= 3 executed",
               end_to_end="depth 1: all 16 level-1 masks x all apexes; thorough: depth 2, 16-bit level-2 mask, every pair of accepted level-1 tiles, all apexes with free masks")
     run.assume("CrossHair's models of int/bool/list/tuple/namedtuple; hashing a symbolic Pos realises it (positions enumerated inside the stated ranges)",
                "progress_bar and print inside toasty.pyramid/toasty.toast replaced by no-ops",
